@@ -427,9 +427,19 @@ func c19Case(c *vc.Ctx, idx int) {
 			c.Eval(1)
 			c.Count("raw_tx_mutants_through_check_tx", 1)
 		}
+		// a well-formed transaction of the relayer proposer whose timeout height is the current height: admissible now, no
+		// longer when the next block is built - the proposer has to drop it from its pool while selecting
+		if blk%4 == 2 {
+			if raw, err := w.SignTx(world.TxSpec{Msgs: []sdkMsg{&relayertypes.MsgAcceptProposerRequest{Proposer: g.Proposer.AddrStr, Epoch: g.Epoch}}, Priv: g.Proposer.Tx, AccNum: num, Seq: seq, Timeout: uint64(ch.Height)}); err == nil {
+				record("CheckTx (expires before the next proposal)", raw)
+				if res, err := ch.CheckTx(0, raw, false); err == nil && res.Code == 0 {
+					c.Count("expiring_transactions_left_in_the_mempool", 1)
+				}
+			}
+		}
 		// some of the re-signed mutants also go through the mempool door
 		for i, it := range items {
-			if i%3 == 0 {
+			if i%3 == 0 && blk%4 != 2 {
 				record("CheckTx", it.raw)
 				_, _ = ch.CheckTx(0, it.raw, false)
 			}
@@ -461,6 +471,11 @@ func c19Case(c *vc.Ctx, idx int) {
 		record("PrepareProposal+requests", fmt.Sprintf("%+v", reqs))
 		lc := ch.LastCommitInfo(nil)
 		ptxs, perr := ch.Prepare(0, h, t, reqs)
+		var stuck *world.ErrStuck
+		if errors.As(perr, &stuck) {
+			viol("block processing halted: proposal building makes no progress", stuck.Error(), nil)
+			return
+		}
 		if perr != nil {
 			// the fake execution layer emitted something the proposer refuses to package: nothing to finalise
 			c.Count("proposals_not_built_on_hostile_requests", 1)
